@@ -87,6 +87,13 @@ E = [
  ('electron_mass','9.1093837139e-31',D(M=1),'m_e','measured'), ('proton_mass','1.67262192595e-27',D(M=1),'m_p','measured'), ('neutron_mass','1.67492750056e-27',D(M=1),'m_n','measured'),
  ('x_unit_Cu','1.00207697e-13',D(L=1),'Xu_Cu','measured'), ('x_unit_Mo','1.00209952e-13',D(L=1),'Xu_Mo','measured'), ('angstrom_star','1.00001495e-10',D(L=1),'Å_star','measured'),
  ('unified_atomic_mass_unit','1.66053906892e-27',D(M=1),'u','measured'), ('dalton','1.66053906892e-27',D(M=1),'Da','measured'),
+ # --- compound customary and technical units (products / quotients of the defined ones; NIST SP 811 appendix B)
+ ('foot_pound','0.3048*0.45359237*9.80665',D(M=1,L=2,T=-2),None,'def'), ('kip','1000*0.45359237*9.80665',D(M=1,L=1,T=-2),None,'def'),
+ ('force_ounce','0.45359237*9.80665/16',D(M=1,L=1,T=-2),'ozf','def'), ('force_kilogram','9.80665',D(M=1,L=1,T=-2),'kgf','def'),
+ ('kilometer_per_hour','1000/3600',D(L=1,T=-1),None,'def'), ('mile_per_hour','1609.344/3600',D(L=1,T=-1),'mph','def'), ('foot_per_second','0.3048',D(L=1,T=-1),None,'def'),
+ ('square_inch','0.0254**2',D(L=2),None,'def'), ('square_foot','0.3048**2',D(L=2),None,'def'), ('square_yard','0.9144**2',D(L=2),None,'def'),
+ ('ton_TNT','4.184e9',D(M=1,L=2,T=-2),None,'def'), ('tonne_of_oil_equivalent','41.868e9',D(M=1,L=2,T=-2),'toe','def'), ('therm','1055.056e5',D(M=1,L=2,T=-2),None,'def'),
+ ('ampere_hour','3600',D(I=1,T=1),'Ah','def'), ('volt_ampere','1',D(M=1,L=2,T=-3),'VA','def'), ('langley','41840',D(M=1,T=-2),None,'def'),
 ]
 PREFIXES = [('quecto','1e-30','q'),('ronto','1e-27','r'),('yocto','1e-24','y'),('zepto','1e-21','z'),('atto','1e-18','a'),('femto','1e-15','f'),('pico','1e-12','p'),('nano','1e-9','n'),('micro','1e-6','µ'),('milli','1e-3','m'),('centi','1e-2','c'),('deci','1e-1','d'),('deca','1e1','da'),('hecto','1e2','h'),('kilo','1e3','k'),('mega','1e6','M'),('giga','1e9','G'),('tera','1e12','T'),('peta','1e15','P'),('exa','1e18','E'),('zetta','1e21','Z'),('yotta','1e24','Y'),('ronna','1e27','R'),('quetta','1e30','Q'),
  ('kibi','2**10','Ki'),('mebi','2**20','Mi'),('gibi','2**30','Gi'),('tebi','2**40','Ti'),('pebi','2**50','Pi'),('exbi','2**60','Ei'),('zebi','2**70','Zi'),('yobi','2**80','Yi')]
